@@ -116,6 +116,20 @@ func ReplyPayload(tok string) string { return Payload("R:" + tok) }
 // MetaVal is a metadata value derived from the token.
 func MetaVal(tok string, i int) string { return fmt.Sprintf("%x", hash(fmt.Sprintf("m%d:%s", i, tok))) }
 
+// EscVal is a token-derived metadata value made of bytes that the wire protocols must escape (percent-escapes
+// of the metadata query string, JSON string escapes): control bytes, separators, non-ASCII text, high bytes.
+// It travels in the pair "Esc" (reply: "Resc") of the messages that carry a repeated key (announced by Dn=2).
+func EscVal(tok string) string {
+	tbl := []string{"\t", ")", "\xc3\xa9", "%", "&", "=", "+", " ", "\x99", "\xf9", "\xe2\x82\xac", "\x19", "\"", "\\", "i9", "~\x7f", "\xf0\x9f\x99\x89", "%9", "%zz"}
+	x := hash("esc:" + tok)
+	out := ""
+	for i := 0; i < 6; i++ {
+		out += tbl[x%uint64(len(tbl))]
+		x /= uint64(len(tbl))
+	}
+	return out
+}
+
 // TailMeta is the value of the last metadata pair "Ztail" of the message with that token:
 // "-" = the pair is absent, "" = present with an empty value, otherwise a token-derived value.
 func TailMeta(tok string) string {
@@ -306,7 +320,7 @@ func IsEmpty(v interface{}) bool {
 	return false
 }
 
-var ourKeys = []string{"Tok", "M1", "Ztail", "Dup", "Dn", "Rtok", "R1"}
+var ourKeys = []string{"Tok", "M1", "Ztail", "Dup", "Dn", "Esc", "Rtok", "R1", "Resc"}
 
 // DupMeta says whether the message of a token carries a repeated metadata key (two "Dup" pairs, announced by "Dn").
 func DupMeta(tok string) bool { return hash("dup:"+tok)%4 == 0 }
@@ -362,6 +376,10 @@ func check(m *Monitor, kind, phase string, ctx inCtx, arg interface{}, wantMetho
 			m.Report("handler-meta-foreign/"+phase, kind, fmt.Sprintf("token %q: repeated metadata key Dup arrived as %q, sent [%q %q]", tok, got, MetaVal(tok, 3), MetaVal(tok, 4)))
 			return tok, false
 		}
+		if got := string(ctx.PeekMeta("Esc")); got != EscVal(tok) {
+			m.Report("handler-meta-foreign/"+phase, kind, fmt.Sprintf("token %q: metadata Esc=%q, sent %q", tok, got, EscVal(tok)))
+			return tok, false
+		}
 	}
 	if sm := ctx.ServiceMethod(); sm != wantMethod {
 		m.Report("handler-method/"+phase, kind, fmt.Sprintf("token %q: service method %q want %q", tok, sm, wantMethod))
@@ -404,6 +422,9 @@ func handleCall(kind, route string, ctx erpc.CallCtx, arg interface{}) (interfac
 	if !Bare(tok) {
 		ctx.SetMeta("Rtok", tok)
 		ctx.SetMeta("R1", MetaVal(tok, 2))
+		if string(ctx.PeekMeta("Dn")) == "2" {
+			ctx.SetMeta("Resc", EscVal("R:"+tok))
+		}
 		if v := TailMeta("R:" + tok); v != "-" {
 			ctx.SetMeta("Ztail", v)
 		}
